@@ -11,6 +11,7 @@ import Rsdns.Model.Reader
 import Rsdns.Model.RecordSet
 import Rsdns.Model.NameText
 import Rsdns.Model.Client
+import Rsdns.Model.Pass
 
 namespace Rsdns.Driver
 
@@ -599,63 +600,42 @@ def answerViews (msg : Bytes) : String :=
 
 def b01 (b : Bool) : String := if b then "1" else "0"
 
-/-- the record loop of the `truth` transcript: owned heap names, typed data, OPT via `opt_record` -/
-def truthRecords (msg : Bytes) : Nat → Reader → Array String → Array String × Option Reader
-  | 0, r, items => (items, some r)
-  | fuel + 1, r, items =>
-    match r.recordsCount with
-    | .ok n =>
-      if n == 0 then (items, some r) else
-      match r.recordHeader msg (.owned .heap) with
-      | (.ok (hn, m), r1) =>
-        let name := match hn with
-          | .owned t => toHex t
-          | _ => "-"
-        let (data, r2) : String × Reader :=
-          match RType.ofCode m.rtype with
-          | some t => let (o, r') := r1.data msg t m; (showE showRData o, r')
-          | none =>
-            if m.rtype == 41 then
-              let (o, r') := r1.optRecord m
-              (showE (fun x => s!"opt:{x.udpPayloadSize}:{x.rcodeExtension}:{x.version}:{b01 (Generated.opt_dnssec_ok x.flags)}") o, r')
-            else
-              let (o, r') := r1.dataBytes msg m
-              (showE (fun b => "raw:" ++ toHex b) o, r')
-        let items' := items.push
-          s!"R:{m.section_}:{m.offset}:{m.typeOffset}:{m.rdlen}:{name}:{m.rtype}:{m.rclass}:{m.ttl}:{data}"
-        if data.startsWith "E:" then (items', none) else truthRecords msg fuel r2 items'
-      | (.err e, _) => (items.push ("!E:" ++ showErr e), none)
-      | (.panic _, _) => (items.push "P", none)
-      | (.ub, _) => (items.push "UB", none)
-    | _ => (items.push "P", none)
+def showRecVal : RecVal → String
+  | .typed v => showRData v
+  | .opt x => s!"opt:{x.udpPayloadSize}:{x.rcodeExtension}:{x.version}:{b01 (Generated.opt_dnssec_ok x.flags)}"
+  | .raw b => "raw:" ++ toHex b
 
-/-- `truth <hex>` -/
+def showPassRec (p : PassRec) : String :=
+  let m := p.marker
+  s!"R:{m.section_}:{m.offset}:{m.typeOffset}:{m.rdlen}:{toHex p.name}:{m.rtype}:{m.rclass}:{m.ttl}:{showRecVal p.val}"
+
+/-- `truth <hex>`: the transcript of `Reader.pass` (the function `C02.decode_wellformed` is about) -/
 def answerTruth (msg : Bytes) : String :=
+  let (out, ro) := Reader.pass msg
   let (f, s) : String × String :=
-    match Reader.new msg with
-    | .err e => ("-", "!E:" ++ showErr e)
-    | .panic _ => ("-", "P")
-    | .ub => ("-", "UB")
-    | .ok r0 =>
-      match r0.header msg with
-      | (.ok h, r1) =>
-        let w := h.flags
-        let f := s!"{b01 (Generated.flags_qr w)}:{Generated.flags_opcode w}:{b01 (Generated.flags_aa w)}:{b01 (Generated.flags_tc w)}:{b01 (Generated.flags_rd w)}:{b01 (Generated.flags_ra w)}:{Generated.flags_rcode w}"
-        let items := #[s!"H:{h.id}:{h.flags}:{h.qd}:{h.an}:{h.ns}:{h.ar}"]
-        match seqQuestions msg 2 (h.qd + 1) r1 items with
-        | (some (r2, items2), _) =>
-          match truthRecords msg (h.an + h.ns + h.ar + 1) r2 items2 with
-          | (items3, some r3) =>
-            let (o, r4) := r3.recordHeader msg .marker
-            let extra := showE (fun _ => "a-record-that-was-not-encoded") o
-            let cq := showE (fun n => s!"{n}") r4.questionsCount
-            let cr := showE (fun n => s!"{n}") r4.recordsCount
-            (f, String.intercalate ";" (items3.push s!"END:{extra}:{cq}:{cr}").toList)
-          | (items3, none) => (f, String.intercalate ";" items3.toList)
-        | (none, items2) => (f, String.intercalate ";" items2.toList)
-      | (.err e, _) => ("-", "!E:" ++ showErr e)
-      | (.panic _, _) => ("-", "P")
-      | (.ub, _) => ("-", "UB")
+    match out.header with
+    | none => ("-", match out.ending with
+        | .err e => "!E:" ++ showErr e
+        | .panic _ => "P"
+        | .ub => "UB"
+        | .ok _ => "?")
+    | some h =>
+      let w := h.flags
+      let f := s!"{b01 (Generated.flags_qr w)}:{Generated.flags_opcode w}:{b01 (Generated.flags_aa w)}:{b01 (Generated.flags_tc w)}:{b01 (Generated.flags_rd w)}:{b01 (Generated.flags_ra w)}:{Generated.flags_rcode w}"
+      let items : List String := [s!"H:{h.id}:{h.flags}:{h.qd}:{h.an}:{h.ns}:{h.ar}"] ++
+        out.questions.map showQuestionOwned ++ out.records.map showPassRec
+      let tail : String := match out.ending, ro with
+        | .ok _, some r3 =>
+          let (o, r4) := r3.recordHeader msg .marker
+          let extra := showE (fun _ => "a-record-that-was-not-encoded") o
+          let cq := showE (fun n => s!"{n}") r4.questionsCount
+          let cr := showE (fun n => s!"{n}") r4.recordsCount
+          s!"END:{extra}:{cq}:{cr}"
+        | .err e, _ => "!E:" ++ showErr e
+        | .panic _, _ => "P"
+        | .ub, _ => "UB"
+        | .ok _, none => "?"
+      (f, String.intercalate ";" (items ++ [tail]))
   s!"F={f} | S={s} | I={answerIter msg}"
 
 /-- the op list of one linear pass, from the header counts (capped) -/
